@@ -124,9 +124,59 @@ m("c15_keynum_cast", "C15", r"C15\.KEYNUM:.*Hash", "KeyNumber::hash casts negati
                 v.hash(state);
             }
 """, "")
+# ---------------------------------------------------------------- C09
+m("c09_jumpset_iterate", "C09", r"C09\.JUMPSET:sets-agree", "Iterate dropped from the optimiser's target-marking loop",
+  "tera/src/parsing/instructions.rs", """            | Instruction::JumpIfTrueOrPop(t)
+            | Instruction::Iterate(t) = instr
+                && *t < is_jump_target.len()""", """            | Instruction::JumpIfTrueOrPop(t) = instr
+                && *t < is_jump_target.len()""")
+m("c09_guard_writetop", "C09", r"C09\.GUARD:absorb", "WriteTop absorbed even when it is a jump target",
+  "tera/src/parsing/instructions.rs", """                let has_write = j < old_instructions.len()
+                    && !is_jump_target[j]
+                    && matches!""", """                let has_write = j < old_instructions.len()
+                    && matches!""")
+# ---------------------------------------------------------------- C13
+m("c13_rem_callee", "C13", r"C13\.CALLEE:rem", "% uses checked_rem (truncated) instead of checked_rem_euclid",
+  "tera/src/value/number.rs", "match a.checked_rem_euclid(b) {", "match a.checked_rem(b) {")
+m("c13_zero_test", "C13", r"C13\.CALLEE:floor_div:zero-test", "zero test removed from floor_div",
+  "tera/src/value/number.rs", """pub(crate) fn floor_div(lhs: &Value, rhs: &Value) -> TeraResult<Value> {
+    match (lhs.as_number(), rhs.as_number()) {
+        (Some(mut left), Some(mut right)) => {
+            if right.is_zero() {
+                return Err(Error::message("Cannot divide by 0".to_string()));
+            }
+""", """pub(crate) fn floor_div(lhs: &Value, rhs: &Value) -> TeraResult<Value> {
+    match (lhs.as_number(), rhs.as_number()) {
+        (Some(mut left), Some(mut right)) => {
+""")
+m("c13_wrapping_neg", "C13", r"C13\.(CHK|CALLEE):.*negate", "negate wraps instead of failing",
+  "tera/src/value/number.rs", "Number::Integer(f) => match f.checked_neg() {", "Number::Integer(f) => match Some(f.wrapping_neg()) {")
+m("c13_cmp_lossy", "C13", r"C13\.CMP:.*eq:cast", "== compares an i64 with a float through a lossy cast",
+  "tera/src/value/mod.rs", """            (ValueInner::F64(a), ValueInner::F64(b)) => (a.is_nan() && b.is_nan()) || a == b,
+            (ValueInner::F64(v), _) => cmp_f64_to_number(*v, other) == Some(Ordering::Equal),""",
+  """            (ValueInner::F64(a), ValueInner::F64(b)) => (a.is_nan() && b.is_nan()) || a == b,
+            (ValueInner::F64(v), ValueInner::I64(i)) => *v == *i as f64,
+            (ValueInner::F64(v), _) => cmp_f64_to_number(*v, other) == Some(Ordering::Equal),""")
+# ---------------------------------------------------------------- C18
+m("c18_freeze_mutex", "C18", r"C18\.FREEZE:tera::Tera", "a Mutex-protected counter added to the engine",
+  "tera/src/tera.rs", "__SPECIAL_TERA_MUTEX__", "")
+m("c18_ioerr_dropped", "C18", r"C18\.IOERR:.*interpret:write_all", "write failure of template text ignored",
+  "tera/src/vm/interpreter.rs", "                        output.write_all(t.as_bytes())?;", "                        let _ = output.write_all(t.as_bytes());")
+m("c18_wrap_extra", "C18", r"C18\.WRAP:tera::Tera::render_str", "render_str post-processes the buffer",
+  "tera/src/tera.rs", """        self.render_str_to(input, context, autoescape, &mut output)?;
+        Ok(String::from_utf8(output)?)""", """        self.render_str_to(input, context, autoescape, &mut output)?;
+        output.extend_from_slice(b"");
+        Ok(String::from_utf8(output)?)""")
 
 
 def apply(src, old, new, count, name):
+    if old == "__SPECIAL_TERA_MUTEX__":
+        a = "    /// Fallback prefixes to try when a template is not found by exact name.\n    fallback_prefixes: Vec<Cow<'static, str>>,\n}"
+        assert src.count(a) == 1
+        src = src.replace(a, a[:-1] + "    render_count: std::sync::Arc<std::sync::Mutex<usize>>,\n}")
+        b = "            fallback_prefixes: Vec::new(),\n        };"
+        assert src.count(b) == 1
+        return src.replace(b, "            fallback_prefixes: Vec::new(),\n            render_count: Default::default(),\n        };")
     if old == "__SPECIAL_ORD_MAP__":
         i = src.index("            (ValueInner::Map(a), ValueInner::Map(b)) => {\n                let mut a: Vec<_>")
         j = src.index("            _ => {}\n", i)
